@@ -163,24 +163,24 @@ def stateVerdict (goState : String) : Option String :=
   | some t => some s!"advertised-name-holds-other-content:{t}"
   | none => none
 
-/-- expected outcomes: online not killed → the image of the revision served; killed → `crash` (or that
-image when the marker lies beyond the build); offline → an error or the image of a revision whose
-index was requested earlier -/
+/-- expected outcomes: online not killed → the image of the revision served (or of the revision HEAD
+announced, when the repository changed between HEAD and GET); killed → `crash` (or that image when the
+marker lies beyond the build); offline → an error or the image of the revision the most recent online
+build asked for (never an older revision, never anything else) -/
 def outcomesVerdict (builds : List String) (outs : List String) : Option String :=
-  let rec go (bs : List String) (os : List String) (seen : List String) (i : Nat) : Option String :=
+  let rec go (bs : List String) (os : List String) (last : List String) (i : Nat) : Option String :=
     match bs, os with
     | [], [] => none
     | b :: bs', o :: os' =>
       match b.splitOn ":" with
       | ["on", hk, gk, k, _] =>
         let want := s!"ok:img{gk}"
-        -- a build whose HEAD was answered before a repository update may use the revision HEAD announced
         if o == want || o == s!"ok:img{hk}" || (k != "-" && o == "crash") then
-          go bs' os' (want :: s!"ok:img{hk}" :: seen) (i + 1)
+          go bs' os' [want, s!"ok:img{hk}"] (i + 1)
         else some s!"build{i}:online:{o}:want:{want}"
       | _ =>
-        if o == "err" || seen.contains o then go bs' os' seen (i + 1)
-        else some s!"build{i}:offline:{o}"
+        if o == "err" || last.contains o then go bs' os' last (i + 1)
+        else some s!"build{i}:offline:{o}:want:err-or-{last}"
     | _, _ => some "outcome-count"
   go builds outs [] 0
 
@@ -213,6 +213,9 @@ def handle (args : List String) : Option String :=
     -- `.dat.tar` is used as it is, and the size of a truncated `.dat.tar.gz` goes into the installed db
     some ("-\t" ++ verdict ++ "\t" ++
       (if kind == "empty-tar" || kind == "cut-tar" || kind == "trunc-dat" then "F19b" else "unlisted"))
+  | ["cache-cold", cacheless, cold] =>
+    -- the most basic instance: an empty cache directory must not change the result
+    some ("-\t" ++ (if cacheless == cold then "pass" else s!"fail:cold-cache-build-differs:{cold}:cache-less:{cacheless}") ++ "\tunlisted")
   | "cache-plant" :: _ => some "-\tfail:harness-setup\tunlisted"
   | _ => none
 
